@@ -320,6 +320,17 @@ def run_task(prop, sub: Sub, tier: str, base_seed: int, shard: int, nshards: int
                     violations.append(stats.last_violation or {"sig": v.sig, "msg": v.msg, "case": None})
                     stats.excluded_sigs.add(v.sig)
                     n = max(20, n // 2)
+                except Exception as e:
+                    # Hypothesis reports a predicate that fails only some of the times it is run on the same
+                    # case as Flaky*: the case and the violation it last produced are still a real observation
+                    if type(e).__name__ in ("FlakyFailure", "Flaky", "FlakyReplay") and stats.last_violation:
+                        v = dict(stats.last_violation)
+                        v["msg"] = "(not reproducible on every run of the same case) " + v["msg"]
+                        violations.append(v)
+                        stats.excluded_sigs.add(v["sig"])
+                        n = max(20, n // 2)
+                    else:
+                        raise
         return stats.result(shard, violations)
     except BaseException as e:  # harness error
         tb = traceback.format_exc()
